@@ -48,7 +48,7 @@ SAFE_METHODS = {
           'removeprefix', 'removesuffix', 'expandtabs', 'center', 'ljust', 'rjust'},
     list: {'append', 'extend', 'index', 'count', 'copy', 'remove', 'insert', 'pop', 'sort', 'reverse', 'clear'},
     tuple: {'index', 'count'},
-    dict: {'get', 'keys', 'values', 'items'},
+    dict: {'get', 'keys', 'values', 'items', 'setdefault', 'update', 'pop', 'copy'},
     types.MappingProxyType: {'get', 'keys', 'values', 'items'},
     set: {'add', 'union', 'intersection', 'difference', 'discard', 'remove', 'update', 'isdisjoint', 'issubset', 'issuperset'},
     type(re.compile('')): {'match', 'fullmatch', 'search', 'sub', 'findall'},
@@ -333,6 +333,9 @@ class Interp:
                 for b in c.node.body:
                     if isinstance(b, ast.Assign) and any(isinstance(t, ast.Name) and t.id == e.attr for t in b.targets):
                         return self.expr(b.value, {}, c.mod)
+            for t, names in SAFE_METHODS.items():
+                if o is not None and isinstance(o, t) and e.attr in names:
+                    return getattr(o, e.attr)        # a bound method of a plain value (str.format ...), used as a value
             raise Unsupported('attribute %s' % full)
         if isinstance(e, ast.Call):
             return self.callexpr(e, env, mod)
@@ -455,6 +458,11 @@ class Interp:
             return f(*self._py(args), **{k: self._py1(v) for k, v in kwargs.items()})
         if _is_model(f) or getattr(f, '_pyeval_model', False) or any(f is v for v in self.extra_names.values()):
             return f(*args, **kwargs)
+        owner = getattr(f, '__self__', None)
+        if callable(f) and owner is not None and not isinstance(owner, types.ModuleType):
+            for t, names in SAFE_METHODS.items():
+                if isinstance(owner, t) and getattr(f, '__name__', '') in names:
+                    return f(*self._py(args), **kwargs)
         raise Unsupported('call of %r' % (f,))
 
     def _py1(self, v):
